@@ -3,6 +3,7 @@ package main
 import (
 	"fmt"
 	"reflect"
+	"strings"
 
 	"github.com/cockroachdb/errors"
 	"github.com/cockroachdb/errors/errbase"
@@ -58,6 +59,10 @@ func runOracles(res *Result, prop string, c *Case) {
 		oracleC08(res, c)
 	case "C02":
 		oracleC02(res, c)
+	case "C10":
+		oracleC10(res, c)
+	case "C13":
+		oracleC13(res, c)
 	}
 }
 
@@ -309,5 +314,214 @@ func oracleC02(res *Result, c *Case) {
 		if b := isRes(e, rh); b != a0 && !exception {
 			res.fail(c, "C02.ref_transferred", fmt.Sprintf("ref %d: Is(e,r)=%s Is(e,hop r)=%s", i, a0, b), "C02:ref:"+a0+"->"+b)
 		}
+	}
+}
+
+// ---------------------------------------------------------------------
+// C10: independent compositional model of the expected Error() text.
+
+// formatOnly: constructors whose first string is always a format (no plain-message variant)
+var formatOnly = map[string]bool{"assertionfailedf": true, "newassertionwrapped": true}
+
+func fmtOf(r *R) string {
+	if r.Arg == nil {
+		if formatOnly[r.Op] || (r.Op == "handled" && nin(r, 0) == 2) {
+			return fmt.Sprintf(in(r, 0))
+		}
+		return in(r, 0)
+	}
+	return fmt.Sprintf(in(r, 0), *r.Arg)
+}
+
+// expText computes the text the property promises from the recipe alone.
+// ok=false: this node is outside the compositional model (its kids are still checked).
+func expText(r *R) (string, bool) {
+	kid := func(i int) string {
+		if i >= len(r.K) || r.K[i] == nil || r.K[i].built == nil {
+			return ""
+		}
+		t, ok := expText(r.K[i])
+		if !ok {
+			return r.K[i].built.Error()
+		}
+		return t
+	}
+	pref := func(p string) string { return p + ": " + kid(0) }
+	switch r.Op {
+	case "goerr", "pkgnew", "unimpl", "uleaf", "umulti":
+		return in(r, 0), true
+	case "testerr":
+		return "test error", true
+	case "deadline":
+		return "context deadline exceeded", true
+	case "sentinel", "errno":
+		return "", false
+	case "new", "assertionfailedf":
+		return fmtOf(r), true
+	case "wrap", "withmessage", "newassertionwrapped":
+		if in(r, 0) == "" && r.Arg == nil {
+			return kid(0), true
+		}
+		return pref(fmtOf(r)), true
+	case "withstack", "hint", "detail", "issuelink", "telemetry", "domain", "tags", "assertion", "safedetails",
+		"http", "grpc", "pkgwithstack", "mark", "secondary", "handleasassertion", "hop":
+		return kid(0), true
+	case "combine":
+		if r.K[0] == nil || r.K[0].built == nil {
+			return kid(1), true
+		}
+		return kid(0), true
+	case "pkgwithmessage", "syscallerr":
+		return pref(in(r, 0)), true
+	case "patherr":
+		return pref(in(r, 0) + " " + in(r, 1)), true
+	case "linkerr":
+		return pref(in(r, 0) + " " + in(r, 1) + " " + in(r, 2)), true
+	case "fmterrorf":
+		switch nin(r, 0) {
+		case 0:
+			return pref(in(r, 0)), true
+		case 1:
+			return kid(0) + " - " + in(r, 0), true
+		}
+		return kid(0), true
+	case "uwrap":
+		switch nin(r, 0) {
+		case 0:
+			return pref(in(r, 0)), true
+		case 1:
+			return in(r, 0), true
+		}
+		return kid(0), true
+	case "handled":
+		switch nin(r, 0) {
+		case 0:
+			return kid(0), true
+		case 1:
+			return in(r, 0), true
+		}
+		return fmtOf(r), true
+	case "newfe", "newfw":
+		args := make([]interface{}, len(r.K))
+		for i := range r.K {
+			args[i] = kid(i)
+		}
+		f := strings.ReplaceAll(in(r, 0), "%w", "%v")
+		return fmt.Sprintf(f, args...), true
+	case "wrapfe":
+		args := make([]interface{}, len(r.K)-1)
+		for i := range args {
+			args[i] = kid(i + 1)
+		}
+		return fmt.Sprintf(in(r, 0), args...) + ": " + kid(0), true
+	case "join", "joinraw", "stdjoin":
+		var parts []string
+		for i, k := range r.K {
+			if k != nil && k.built != nil {
+				parts = append(parts, kid(i))
+			}
+		}
+		return strings.Join(parts, "\n"), true
+	case "fmterrorfs":
+		t := in(r, 0)
+		for i := range r.K {
+			t += " " + kid(i)
+		}
+		return t, true
+	}
+	return "", false
+}
+
+var annotationOps = map[string]bool{"withstack": true, "hint": true, "detail": true, "issuelink": true, "telemetry": true,
+	"domain": true, "tags": true, "assertion": true, "safedetails": true, "http": true, "grpc": true, "mark": true, "secondary": true}
+
+func oracleC10(res *Result, c *Case) {
+	for _, n := range nodesOf(c.Rec, nil) {
+		if n.built == nil {
+			continue
+		}
+		if want, ok := expText(n); ok {
+			res.OracleEvals["C10.text_composition"]++
+			if got := n.built.Error(); got != want {
+				res.fail(c, "C10.text_composition", fmt.Sprintf("op %s: Error()=%q expected %q", n.Op, got, want), "C10:text:"+n.Op)
+			}
+		}
+		if annotationOps[n.Op] && len(n.K) > 0 && n.K[0] != nil && n.K[0].built != nil {
+			kid := n.K[0].built
+			res.OracleEvals["C10.annotation_transparent"]++
+			if n.built.Error() != kid.Error() {
+				res.fail(c, "C10.annotation_transparent", fmt.Sprintf("op %s changes Error()", n.Op), "C10:annot-text:"+n.Op)
+			}
+			if !safeEq(errors.UnwrapAll(n.built), errors.UnwrapAll(kid)) {
+				res.fail(c, "C10.annotation_transparent", fmt.Sprintf("op %s changes the root cause", n.Op), "C10:annot-root:"+n.Op)
+			}
+			for i, r := range c.Refs {
+				if isRes(kid, r) == "true" && isRes(n.built, r) != "true" {
+					res.fail(c, "C10.annotation_transparent", fmt.Sprintf("op %s loses the match with ref %d", n.Op, i), "C10:annot-is:"+n.Op)
+				}
+			}
+		}
+	}
+}
+
+// ---------------------------------------------------------------------
+// C13: multi-cause errors behave as a tree.
+
+func oracleC13(res *Result, c *Case) {
+	for _, n := range nodesOfErr(c.Err, nil) {
+		bs := errbase.UnwrapMulti(n)
+		if len(bs) == 0 {
+			continue
+		}
+		res.OracleEvals["C13.unwrap_leaf"]++
+		if errors.UnwrapOnce(n) != nil || errors.Unwrap(n) != nil {
+			res.fail(c, "C13.unwrap_leaf", "Unwrap of a multi-cause error is not nil", "C13:unwrap")
+		}
+		nm := markOf(n)
+		for i, r := range c.Refs {
+			res.OracleEvals["C13.is_tree"]++
+			want := false
+			if reflect.TypeOf(r).Comparable() && safeEq(n, r) {
+				want = true
+			}
+			if x, ok := n.(interface{ Is(error) bool }); ok && x.Is(r) {
+				want = true
+			}
+			if markEquivRef(nm, markOf(r)) {
+				want = true
+			}
+			first := -1
+			for j, b := range bs {
+				if isRes(b, r) == "true" {
+					want = true
+					if first < 0 {
+						first = j
+					}
+				}
+			}
+			if got := isRes(n, r); got != map[bool]string{true: "true", false: "false"}[want] {
+				res.fail(c, "C13.is_tree", fmt.Sprintf("ref %d: Is(multi)=%s, itself-or-branches=%v", i, got, want), "C13:is")
+			}
+		}
+		// Join text
+		if t := fmt.Sprintf("%T", n); t == "*join.joinError" || t == "*errors.joinError" {
+			res.OracleEvals["C13.join_text"]++
+			var parts []string
+			for _, b := range bs {
+				parts = append(parts, b.Error())
+			}
+			if n.Error() != strings.Join(parts, "\n") {
+				res.fail(c, "C13.join_text", fmt.Sprintf("%q", n.Error()), "C13:join-text")
+			}
+		}
+	}
+	// branch count, order and per-branch text survive transfer
+	if h2, ok := hopsReal(c.Err, 2); ok {
+		res.OracleEvals["C13.transfer"]++
+		if stripTypes(treeSX(h2)).String() != stripTypes(treeSX(c.Err)).String() {
+			res.fail(c, "C13.transfer", "tree changed after 2 hops", "C13:transfer")
+		}
+	} else {
+		res.fail(c, "C13.transfer", "hop panicked", "C13:hop-panic")
 	}
 }
